@@ -55,7 +55,7 @@ def verify_contracts(contracts, registry, field_types, program=None, names=None,
                 res = solve.prove(ob.pc, ob.goal, timeout_ms=timeout_ms)
                 ob.result = res
                 rep.obligations.append((ob, res))
-                if verbose:
+                if verbose or res.seconds > 2 or res.status != "proved":
                     print(f"   {res.status:8s} {res.solver:5s} {res.seconds:6.2f}s  {ob.name}")
         except OutsideSubset as e:
             rep.status = "drift"
@@ -68,7 +68,7 @@ def verify_contracts(contracts, registry, field_types, program=None, names=None,
             rep.message = f"{type(e).__name__}: {e}\n{traceback.format_exc()}"
         rep.seconds = time.time() - t0
         reports.append(rep)
-        if verbose:
+        if True:
             print(f"{rep.status:6s} {con.name}  paths={rep.paths} obligations={len(rep.obligations)} "
                   f"{rep.seconds:.2f}s {rep.message.splitlines()[0] if rep.message else ''}")
     return reports
@@ -84,7 +84,7 @@ def main(argv=None):
     a = ap.parse_args(argv)
     from contracts import all_contracts
     reg, ftypes = all_contracts()
-    reps = verify_contracts(list(reg.values()), reg, ftypes, names=a.names or None, verbose=True)
+    reps = verify_contracts(list(reg.values()), reg, ftypes, names=a.names or None, verbose=a.v)
     bad = 0
     for r in reps:
         for ob, res in r.obligations:
